@@ -78,6 +78,42 @@ fn replay_case(path: &str, out: &mut impl Write) {
             }
         }
     }
+    let twin = header.contains("family=c01_");
+    if twin {
+        // a C01 case file holds several executions: take the controller lines of the first one
+        let mut first: Vec<String> = Vec::new();
+        for l in text.lines() {
+            if l.starts_with("TWIN ") {
+                break;
+            }
+            if let Some(rest) = l.strip_prefix("OP ctl ") {
+                if !rest.starts_with("reg ") {
+                    first.push(rest.to_string());
+                }
+            }
+        }
+        let cfg0 = text.lines().find(|l| l.starts_with("CFG ")).map(CaseCfg::parse).unwrap_or_default();
+        writeln!(out, "{header}").unwrap();
+        for (i, label) in ["", "same-process", "again-1", "again-2"].iter().enumerate() {
+            if i > 0 {
+                writeln!(out, "TWIN {label}").unwrap();
+            }
+            set_capture(true);
+            let c2 = cfg0.clone();
+            let _ = catch_unwind(AssertUnwindSafe(|| {
+                let mut case = Case::new(c2);
+                for c in &first {
+                    case.ctl(c);
+                }
+            }));
+            set_capture(false);
+            for l in take_log() {
+                writeln!(out, "{l}").unwrap();
+            }
+        }
+        writeln!(out, "END").unwrap();
+        return;
+    }
     log(header);
     set_capture(true);
     let r = catch_unwind(AssertUnwindSafe(|| {
@@ -133,6 +169,10 @@ fn main() {
         return;
     }
 
+    if prop == "C01" {
+        c01_main(&tier, seed, cases, &out_path, args.iter().any(|a| a == "--child"));
+        return;
+    }
     if prop == "C11" {
         let total = cases.unwrap_or(match tier.as_str() { "quick" => 1500, "search" => 6000, _ => 40000 });
         let mut master = Rng::new(seed);
@@ -178,4 +218,102 @@ fn main() {
     }
     out.flush().unwrap();
     eprintln!("tv-sim {prop} tier={tier} seed={seed} cases={n} families={hist:?}");
+}
+
+/// Run one case and return its trace lines (without CASE / END).
+fn case_lines(idx: usize, fam: &Family, seed: u64) -> Vec<String> {
+    let mut rng = Rng::new(seed);
+    let cfg = (fam.cfg)(&mut rng);
+    set_capture(true);
+    let r = catch_unwind(AssertUnwindSafe(|| {
+        let mut case = Case::new(cfg);
+        case.idx = idx;
+        (fam.run)(&mut case, &mut rng);
+    }));
+    set_capture(false);
+    if r.is_err() {
+        for (k, v) in turmoil::verif::drain_decisions() {
+            log(format!("ORA {k} {v}"));
+        }
+        log("OBS panic".into());
+    }
+    take_log()
+}
+
+/// C01: every scenario is executed twice in this process and twice in separate OS processes;
+/// the trace file holds all four executions of every case.
+fn c01_main(tier: &str, seed: u64, cases: Option<usize>, out_path: &str, child: bool) {
+    let fams = families::families_for("C01");
+    let total = cases.unwrap_or(match tier { "quick" => 160, "search" => 600, _ => 3000 });
+    let mut master = Rng::new(seed);
+    let mut plan: Vec<(usize, usize, u64)> = Vec::new(); // (family index, idx, seed)
+    for (fi, _) in fams.iter().enumerate() {
+        for k in 0..(total / fams.len()).max(1) {
+            plan.push((fi, k, master.next()));
+        }
+    }
+    let file = std::fs::File::create(out_path).expect("out file");
+    let mut out = std::io::BufWriter::new(file);
+    if child {
+        // child: one execution of every case
+        for (n, (fi, k, s)) in plan.iter().enumerate() {
+            writeln!(out, "CASE {n} family={} seed={s}", fams[*fi].name).unwrap();
+            for l in case_lines(*k, &fams[*fi], *s) {
+                writeln!(out, "{l}").unwrap();
+            }
+            writeln!(out, "END").unwrap();
+        }
+        out.flush().unwrap();
+        return;
+    }
+    // two fresh processes
+    let exe = std::env::current_exe().expect("exe");
+    let mut child_traces: Vec<Vec<Vec<String>>> = Vec::new();
+    for c in 0..2 {
+        let path = format!("{out_path}.child{c}");
+        let st = std::process::Command::new(&exe)
+            .args(["C01", "--tier", tier, "--seed", &seed.to_string(), "--cases", &total.to_string(), "--out", &path, "--child"])
+            .status()
+            .expect("spawn child");
+        let mut per_case: Vec<Vec<String>> = Vec::new();
+        if st.success() {
+            let text = std::fs::read_to_string(&path).unwrap_or_default();
+            let mut cur: Vec<String> = Vec::new();
+            for l in text.lines() {
+                if l.starts_with("CASE ") {
+                    cur = Vec::new();
+                } else if l == "END" {
+                    per_case.push(std::mem::take(&mut cur));
+                } else {
+                    cur.push(l.to_string());
+                }
+            }
+        }
+        let _ = std::fs::remove_file(&path);
+        child_traces.push(per_case);
+    }
+    for (n, (fi, k, s)) in plan.iter().enumerate() {
+        writeln!(out, "CASE {n} family={} seed={s}", fams[*fi].name).unwrap();
+        for l in case_lines(*k, &fams[*fi], *s) {
+            writeln!(out, "{l}").unwrap();
+        }
+        writeln!(out, "TWIN same-process").unwrap();
+        for l in case_lines(*k, &fams[*fi], *s) {
+            writeln!(out, "{l}").unwrap();
+        }
+        for (c, tr) in child_traces.iter().enumerate() {
+            writeln!(out, "TWIN process-{c}").unwrap();
+            match tr.get(n) {
+                Some(ls) => {
+                    for l in ls {
+                        writeln!(out, "{l}").unwrap();
+                    }
+                }
+                None => writeln!(out, "MISSING").unwrap(),
+            }
+        }
+        writeln!(out, "END").unwrap();
+    }
+    out.flush().unwrap();
+    eprintln!("tv-sim C01 tier={tier} seed={seed} cases={} (x4 executions)", plan.len());
 }
